@@ -134,3 +134,30 @@ theorem recombine_spec (L : Nat) (hL : 1 ≤ L) (c : Int) (v : List Nat) (rj : N
       refine ⟨by rw [if_neg (by simp), if_pos hsign, hWc, hpsI]; ring, hWlt, by omega⟩
 
 end Mpir.FftX
+
+namespace Mpir.FftX
+open Mpir Finset
+
+/-- The negacyclic convolution evaluated at X is the product of the two polynomials evaluated at X, modulo X^m + 1
+    (over the integers: the coefficients of the plain product from m on are folded back with a minus sign). -/
+theorem negconv_eval_modEq (a b : List Int) (m : Nat) (ha : ∀ i, m ≤ i → el a i = 0) (hb : ∀ i, m ≤ i → el b i = 0) (X : Int) :
+    ∑ k ∈ range m, el (negconv a b m) k * X ^ k ≡
+      (∑ i ∈ range m, el a i * X ^ i) * (∑ j ∈ range m, el b j * X ^ j) [ZMOD X ^ m + 1] := by
+  have h2 := cauchy_range (fun i => el a i) (fun i => el b i) X (2 * m) m m ha hb (by omega)
+  have ea : ∑ i ∈ range (2 * m), el a i * X ^ i = ∑ i ∈ range m, el a i * X ^ i := by
+    symm; apply sum_subset (range_subset_range.mpr (by omega))
+    intro i _ hi; have : m ≤ i := by simpa using hi
+    rw [ha i this]; ring
+  have eb : ∑ i ∈ range (2 * m), el b i * X ^ i = ∑ i ∈ range m, el b i * X ^ i := by
+    symm; apply sum_subset (range_subset_range.mpr (by omega))
+    intro i _ hi; have : m ≤ i := by simpa using hi
+    rw [hb i this]; ring
+  rw [ea, eb] at h2
+  rw [← h2, two_mul m, sum_range_add]
+  apply Int.modEq_iff_dvd.mpr
+  refine ⟨∑ k ∈ range m, (∑ i ∈ range (m + k + 1), el a i * el b (m + k - i)) * X ^ k, ?_⟩
+  rw [mul_sum, ← sum_add_distrib, ← sum_sub_distrib]
+  apply sum_congr rfl; intro k hk
+  rw [el_negconv _ _ _ _ (mem_range.mp hk), pow_add]; ring
+
+end Mpir.FftX
